@@ -3,7 +3,9 @@
 Theorems: FinVerif/Props/C17a.lean (recursion: non-negative, mass one, mean, = enumeration of the 2^n
 default states, for every n) and C17b.lean (mixture over quadrature nodes reduces mass/mean to scalar
 quadrature sums, zero correlation = independent, tranche EL in [0,1], partition adds up, adjusted
-binomial keeps the mass).  Model: FinVerif/Model/C17.lean (generic) + C17F.lean (Float glue), run as the
+binomial keeps the mass), C17c.lean (default-time samplers: tau = Qinv(F(g)) has the curve's marginal iff F is the
+distribution function of g's own law; the interpolation line of uniform_to_default_time inverts the log-linear curve) and
+C17d.lean (that assumption discharged for the normal law).  Samplers: harness/props/c17_samplers.py.  Model: FinVerif/Model/C17.lean (generic) + C17F.lean (Float glue), run as the
 compiled driver `c17driver` and compared with the Numba kernels on the same arrays.
 Direct oracles on the implementation (executable reading of the property) run on every check."""
 import itertools
@@ -15,10 +17,11 @@ import sys
 sys.path.insert(0, os.path.dirname(os.path.dirname(os.path.abspath(__file__))))
 import common as C  # noqa: E402
 import exedriver    # noqa: E402
+from props import c17_samplers as S  # noqa: E402
 from floatcmp import f2b, b2f  # noqa: E402
 
 GEN = ['BSF']
-PROPS = ['FinVerif.Props.C17a', 'FinVerif.Props.C17b']
+PROPS = ['FinVerif.Props.C17a', 'FinVerif.Props.C17b', 'FinVerif.Props.C17c', 'FinVerif.Props.C17d']
 DRIVERS = ['FinVerif.Driver.C17']
 MEASURE = bool(os.environ.get('C17_MEASURE'))
 
@@ -28,7 +31,12 @@ RULE = ('kernels: sampled portfolios (1..125 names, heterogeneous p in (0,1), in
         'entry-wise with the Lean model (Float) and checked against the direct oracles; tranche survival functions for '
         'all four FinLossDistributionBuilder methods over seeded capital-structure partitions; CDSTranche.value_bc and '
         'CDSBasket (1-factor, Gaussian MC, Student-t MC) on seeded issuer curves. Non-trivial = more than one credit '
-        'and (for copula cases) beta > 0; cases are distinct draws of one PRNG stream.')
+        'and (for copula cases) beta > 0; cases are distinct draws of one PRNG stream. Default-time samplers '
+        '(StudentTCopula.default_times, default_times_gc, uniform_to_default_time): degrees of freedom '
+        f'{S.DOFS} + random integer and non-integer values x flat correlations {S.RHOS} x portfolio sizes {S.SIZES}; '
+        'per sample the distribution function the code applied vs SciPy (latents replayed from the seed), per name and '
+        'horizon the exact binomial law of the simulated default count (fixed trial counts), per uniform the round trip '
+        'through the curve and the Lean model of uniform_to_default_time.')
 
 # ---- tolerances (measured on the unchanged tree, see notes/C17.md) ---------------------------------
 TOL_MODEL = (1e-9, 1e-12)         # rtol, atol: model vs implementation, entry-wise (fastmath re-association/FMA)
@@ -82,7 +90,7 @@ class Meas:
 
 
 def run(ctx):
-    drivers_ok = C.lean_stage(ctx, GEN, PROPS, DRIVERS, extra_files=['FinVerif/Lemmas/C17.lean'])
+    drivers_ok = C.lean_stage(ctx, GEN, PROPS, DRIVERS, extra_files=['FinVerif/Lemmas/C17.lean', 'FinVerif/Spec/C17.lean', 'FinVerif/Model/C17Inv.lean'])
     C.import_financepy()
     import numpy as np
     from financepy.models import loss_dbn_builder as LB
@@ -514,7 +522,10 @@ def run(ctx):
     # LHPlus closed forms (anchor file gauss_copula_lhplus.py), callable since 89be0d9
     lhplus(ctx, meas, np, quick, LHP)
 
-    # =============================================================== 5. products: CDSTranche / CDSBasket
+    # =============================================================== 5. default-time samplers (Student-t / Gaussian copula)
+    S.samplers(ctx, meas, np, quick, ops, checks, fl, f2b)
+
+    # =============================================================== 6. products: CDSTranche / CDSBasket
     products(ctx, meas, np, quick)
 
     # =============================================================== correspondence: model vs implementation
@@ -558,13 +569,24 @@ def run(ctx):
         'loss units are integer-valued (sh = sz) in recursion_mass_one_partial / recursion_mean_partial; the complement is '
         'the known finding C17/recursion-unit-truncation',
         'LHP / LHPlus closed forms (bivariate/trivariate normal M, phi3 have loops) and the Gaussian-fit method are validated by oracles '
-        'only; Student-t copula and Monte-Carlo default times are exercised through CDSBasket only (C19)',
+        'only',
+        'default-time samplers: theorems inversion_marginal_correct(_iff/_anti) ASSUME that F is the distribution function of the '
+        'latent variable g and that its law has no atoms (IsCdfOf: a fact about the Student-t / normal law, not proved), that g is '
+        'measurable, that the applied function is strictly increasing, and that uniform_to_default_time inverts the survival curve '
+        '(InvertsAt: proved for one pillar interval, interpTime_invertsAt; the interval search is tied by the UDT correspondence '
+        'and the round-trip oracle). The code\'s choice of F is tied to SciPy\'s Student-t / normal distribution function at the '
+        'simulated points (tolerance 1e-6), with the latent variables replayed from the NumPy seed in the sampler\'s draw order; '
+        'a changed draw order is reported as a broken correspondence and decided by the binomial marginal oracle alone',
+        'marginal oracle: exact binomial law of the count of default times <= T (antithetic pairs), two-sided tail 1e-8 per '
+        'comparison; its power against a distribution-function error shrinks with the error (quick: 20000 trials, detects the '
+        'normal-for-t substitution up to about 40 degrees of freedom; the deterministic tie detects it at any)',
         'adjusted binomial: the base binomial summing to one (binomial theorem) is validated, the adjustment step is proved',
     ]
     return C.finish(ctx, 'proof',
-                    'lake build FinVerif.Props.C17a FinVerif.Props.C17b && lake env lean .cache/audit/Audit_C17.lean',
-                    C.TRUSTED_BASE_COMMON + ['hand-written model FinVerif/Model/C17.lean + C17F.lean, tied to the Numba kernels '
-                                             'by the entry-wise correspondence of this run',
+                    'lake build FinVerif.Props.C17a FinVerif.Props.C17b FinVerif.Props.C17c FinVerif.Props.C17d && lake env lean .cache/audit/Audit_C17.lean',
+                    C.TRUSTED_BASE_COMMON + ['hand-written model FinVerif/Model/C17.lean + C17F.lean + C17Inv.lean, tied to the Numba kernels '
+                                             'by the entry-wise correspondence of this run; the inversion step of the samplers '
+                                             '(which function F is applied) is tied by the per-sample comparison with SciPy',
                                              'Spec: law of sum l_i*Bernoulli(p_i) as the enumeration of 2^n states (enumStates)'],
                     RULE)
 
@@ -890,7 +912,7 @@ def products(ctx, meas, np, quick):
         cm = corr_matrix_generator(rho, n)
         seed = rng.randint(1, 10 ** 6)
         trials = 2000
-        dof = rng.choice([3, 8])
+        dof = rng.choice([3, 8] + S.DOFS)      # both sides of the 'nearly normal' region
         for nm, call in (('Gaussian MC', lambda k: bsk.value_gaussian_mc(value_dt, k, curves, cm, libor, trials, seed)),
                          ('Student-t MC', lambda k: bsk.value_student_t_mc(value_dt, k, curves, cm, dof, libor, trials, seed))):
             try:
@@ -901,6 +923,11 @@ def products(ctx, meas, np, quick):
                               {'fn': nm, 'num_credits': n, 'rho': rho, 'seed': seed, 'trials': trials,
                                'value_dt': '20-MAR-2024', 'maturity': str(mat)},
                               finding='C17/basket-mc-index-overrun', clause='callable')
+                continue
+            except Exception as e:  # noqa: BLE001
+                ctx.violation(f'CDSBasket {nm} raised {type(e).__name__}: {e}',
+                              {'fn': nm, 'num_credits': n, 'rho': rho, 'seed': seed, 'trials': trials, 'degrees_of_freedom': dof,
+                               'value_dt': '20-MAR-2024', 'maturity': str(mat)}, clause='callable')
                 continue
             if not all(s_[i] >= s_[i + 1] - 1e-12 for i in range(n - 1)) or min(s_) < -1e-12:
                 ctx.violation(f'nth-to-default spreads do not decrease in n ({nm})',
@@ -990,6 +1017,10 @@ def replay(ctx, path):
         mass, mean = float(d.sum()), float((d * np.arange(len(d))).sum())
         print(f'replay {fn}: mass={mass!r} mean={mean!r} expected mean={float((p * lu).sum())!r} min={float(d.min())!r}')
         bad = abs(mass - 1) > TOL_MASS_GC or abs(mean - float((p * lu).sum())) > mean_tol(int(cs['num_integration_steps'])) * lu.sum() or d.min() < 0
+    elif fn in (S.T_NAME, S.G_NAME):
+        keys = ['fn', 'value_dt', 'libor_flat_rate', 'cds_tenors', 'cds_spreads', 'recovery', 'flat_correlation', 'num_trials',
+                'seed', 'degrees_of_freedom']
+        bad = S.replay_case(np, {k: cs[k] for k in keys if k in cs})
     else:
         print('replay case (re-run ./check C17 with the recorded seed to reproduce):', json.dumps(v, default=str)[:2000])
         return 1
